@@ -150,6 +150,38 @@ def search(payload):
                     break
         if len(fails) >= 5:
             break
+    # HISTORY (history.py): negate() of TEMPORARIES, one after the other (the argument is dropped at once, its address is taken by the next),
+    # repeated in several orders and after calls that raise; constants that cannot be hashed (lists, dicts, sets)
+    import history
+    from predicate.standard_predicates import eq_p as _eq2, ne_p as _ne2, ge_p as _ge2, gt_p as _gt2, le_p as _le2, lt_p as _lt2
+    hvals = [0, 1, 2, 3, 4, 5, 7, 8, 9, -1, None, "a", (1, 2), [1, 2], [1], {"a": 1}, {1, 2}, [], 2.5]
+
+    def neg_call(mk):
+        def th():
+            np_ = negate(mk())               # the argument is a temporary
+            p = mk()
+            for x in hvals:
+                k, r = call(p, x)
+                if k != "ok" or not isinstance(r, bool):
+                    continue
+                k2, r2 = call(np_, x)
+                if k2 != "ok" or r2 != (not r):
+                    return {"p": repr(p), "p_structure": skey(p), "x": repr(x), "p(x)": r, "negate(p)": repr(np_), "negate(p)_structure": skey(np_),
+                            "negate(p)(x)": repr(r2) if k2 == "ok" else f"raises {r2}"}
+            return None
+        return th
+    mks = []
+    for c in ((1, 2, 3), (7, 8), (1,), (2, 3, 4, 5), (9,), (0, 1), (3, 8), ("a",), (None, 1)):
+        mks += [(f"negate(in_p{c!r})", lambda c=c: in_p(*c)), (f"negate(not_in_p{c!r})", lambda c=c: not_in_p(*c))]
+    for c in (0, 1, 2, 3, 2.5, "a", (1, 2), [1, 2], {"a": 1}, {1, 2}, [1], []):
+        for nm, f in (("eq_p", _eq2), ("ne_p", _ne2)):
+            mks.append((f"negate({nm}({c!r}))", lambda c=c, f=f: f(c)))
+    for c in (0, 1, 3, 2.5, "a", (1, 2), [1, 2], [1]):
+        for nm, f in (("ge_p", _ge2), ("gt_p", _gt2), ("le_p", _le2), ("lt_p", _lt2)):
+            mks.append((f"negate({nm}({c!r}))", lambda c=c, f=f: f(c)))
+    hn, hfails = history.run([(lb, neg_call(mk)) for lb, mk in mks], poison=[("negate(5)  # not a predicate", lambda: negate(5))] * 3, passes=4, seed=int(payload.get("seed", 0)), vetted=True)
+    n += hn
+    fails += hfails
     # a negation computed earlier must stay the complement after the optimizer has seen it inside another tree
     from predicate import optimize as _optimize
     for mk_p, other in ((lambda: in_p(1, 2), lambda: not_in_p(3, 4)), (lambda: not_in_p(1, 2), lambda: in_p(3, 4)), (lambda: in_p(1, 2), lambda: in_p(3, 4)),
